@@ -130,6 +130,9 @@ pub trait ADNum: Clone + Sized {
         None
     }
     fn relationship(a: &Self, b: &Self) -> VarsRelationship;
+    /// the public alignment helpers (`Vars::to_union_vars`, `Vars::to_combined_vars`)
+    fn union_vars(a: &Self, b: &Self) -> (Self, Self);
+    fn combined_vars(a: &Self, b: &Self) -> (Self, Self);
     fn dd(op: Op2, a: Self, b: Self, own: u8) -> Self;
     fn df(op: Op2, a: Self, f: f64, own: u8) -> Self;
     fn fd(op: Op2, f: f64, b: Self, own: u8) -> Self;
@@ -229,6 +232,12 @@ macro_rules! impl_common {
         }
         fn same_arc(a: &Self, b: &Self) -> bool {
             a.ptr_eq(b)
+        }
+        fn union_vars(a: &Self, b: &Self) -> (Self, Self) {
+            a.to_union_vars(b, None)
+        }
+        fn combined_vars(a: &Self, b: &Self) -> (Self, Self) {
+            a.to_combined_vars(b)
         }
         fn var_names(&self) -> Vec<String> {
             self.vars().iter().cloned().collect()
